@@ -69,14 +69,15 @@ def _run(cmd, cwd=None):
 
 
 def _prune(keep):
-    """Keep the build cache bounded: remove all but the 4 most recent builds."""
+    """Keep the build cache bounded: remove all but the 24 most recently used builds, and never one
+    used within the last two hours (another check may be running from it)."""
     try:
         ds = [os.path.join(BUILD, d) for d in os.listdir(BUILD) if os.path.isdir(os.path.join(BUILD, d))]
     except FileNotFoundError:
         return
     ds.sort(key=lambda d: os.path.getmtime(d), reverse=True)
-    for d in ds[4:]:
-        if os.path.abspath(d) != os.path.abspath(keep):
+    for d in ds[24:]:
+        if os.path.abspath(d) != os.path.abspath(keep) and time.time() - os.path.getmtime(d) > 7200:
             shutil.rmtree(d, ignore_errors=True)
 
 
